@@ -863,6 +863,11 @@ class MultiFit(FitBase):
             _fit.disable_error(err_id=err_id)
 
     def fix_parameter(self, name, value=None):
+        if value is None and name in self.parameter_names:
+            # the value may have been set on a member fit: the minimizer of the multi-fit does not know about it yet
+            _current_value = self.parameter_name_value_dict[name]
+            if self._fitter.minimizer.parameter_values[self.parameter_names.index(name)] != _current_value:
+                value = _current_value
         self._fitter.fix_parameter(name=name, value=value)
         # get fixed value before setting it in the individual fits
         _val = self._fitter.fixed_parameters[name]
